@@ -18,7 +18,7 @@ RULE = ('cases = cat over every axis with 2..3 operands (different ranks, a size
 ASSUMPTIONS = ['pad of an operator with fewer paddings than modes raises RankMismatch (an exception, not a wrong tensor): outside the workload',
                'fill values 0, 1.5, -2 (exactly representable: bit-exact comparison on int-valued cores) and 0.3, -1.7e-3 (not representable in any binary format: compared to working precision of the operand dtype)']
 REQUIRED_REACH = ['_extras:cat', '_extras:pad', '_extras:diag', '_tt_base:TT.mprod', '_tt_base:TT.to_ttm', '_tt_base:TT.conj', '_tt_base:TT.clone']
-REQUIRED_COUNTS = {'cat': 1, 'pad/tensor': 1, 'pad/operator': 1, 'diag/tensor->operator': 1, 'diag/operator->tensor': 1, 'mprod/single': 1, 'mprod/list': 1,
+REQUIRED_COUNTS = {'history_value_checks': 200, 'cat': 1, 'pad/tensor': 1, 'pad/operator': 1, 'diag/tensor->operator': 1, 'diag/operator->tensor': 1, 'mprod/single': 1, 'mprod/list': 1,
                    'to_ttm': 1, 'conj': 1, 'clone': 1, 'exact_comparisons': 100}
 LINE_FUNCS = ['cat', 'pad', 'diag', 'TT.mprod']
 DT = ['f64', 'f64', 'f32', 'c128']
@@ -81,12 +81,19 @@ def cases(tier, seed):
                 c['modes'] = c['modes'] + [rng.choice(c['modes'])]
                 c['L'] = c['L'] + [rng.choice((1, 2, 3))]
         cs.append(c)
+    from .. import hist
+    cs += hist.cases(PROP, tier, seed)
     return cs
 
 
 def run_case(case, ctx):
     g = gens.tgen(case['seed'])
     globals()['run_' + case['gen']](case, ctx, g)
+
+
+def run_hist(case, ctx, g):
+    from .. import hist
+    hist.run(PROP, case, ctx)
 
 
 def run_cat(case, ctx, g):
